@@ -708,9 +708,19 @@ def _inline_in_function(fn, helpers, chelp, inlined):
                     continue  # handled as an expression below
                 if kind == "assign":
                     tgt = st.targets[0]
-                    k = lambda r, tgt=tgt: [ast.copy_location(ast.Assign(
-                        targets=[copy.deepcopy(tgt)], value=r.value if r.value is not None else ast.Constant(value=None),
-                        lineno=r.lineno), r)]
+
+                    def k(r, tgt=tgt):
+                        v = r.value if r.value is not None else ast.Constant(value=None)
+                        # `(a, b) = (x, y)` from a helper returning a tuple display: one assignment per component
+                        if isinstance(tgt, (ast.Tuple, ast.List)) and isinstance(v, ast.Tuple) and len(v.elts) == len(tgt.elts) \
+                                and all(isinstance(t_, ast.Name) for t_ in tgt.elts) \
+                                and not any(isinstance(x, ast.Starred) for x in v.elts):
+                            names = [t_.id for t_ in tgt.elts]
+                            later_reads = [{n.id for n in ast.walk(x) if isinstance(n, ast.Name)} for x in v.elts]
+                            if not any(names[i] in later_reads[j] for i in range(len(names)) for j in range(i + 1, len(names))):
+                                return [ast.copy_location(ast.Assign(targets=[copy.deepcopy(t_)], value=x, lineno=r.lineno), r)
+                                        for t_, x in zip(tgt.elts, v.elts)]
+                        return [ast.copy_location(ast.Assign(targets=[copy.deepcopy(tgt)], value=v, lineno=r.lineno), r)]
                 elif kind == "return":
                     k = lambda r: [r]
                 else:
